@@ -279,12 +279,12 @@ fn gen_listed(a: &Args, rng: &mut Rng) -> Vec<Case> {
     let tails: Vec<&str> = if a.thorough() {
         vec!["", "a", "A", "é", "€", "😀", ".", " ", "a.", ". ", "é😀", "€a", "😀é", "A.", " a", "€€", "😀😀", ".a"]
     } else {
-        vec!["", "a", "A", "é", "€", "😀", ".", " ", "a.", ". ", "é😀", "😀€"]
+        vec!["", "a", "A", "é", "€", "😀", ".", " ", "a.", "é😀"]
     };
     let confs4: [(&str, &str); 4] = [("", ".glif"), ("glyphs.", ""), ("", ""), ("hello.", ".glif")];
     for (p, s) in confs4 {
         let boundary = 255 - s.len();
-        let (lo, hi) = if a.thorough() { (boundary - 12, boundary + 8) } else { (boundary - 5, boundary + 4) };
+        let (lo, hi) = if a.thorough() { (boundary - 12, boundary + 8) } else { (boundary - 4, boundary + 3) };
         for f in fillers {
             let w = if f == 'A' { 2 } else { f.len_utf8() };
             for target in lo..=hi {
@@ -315,9 +315,10 @@ fn gen_listed(a: &Args, rng: &mut Rng) -> Vec<Case> {
         " ".repeat(260),
     ];
     for (i, nm) in chain_names.iter().enumerate() {
-        for (p, s) in CONFIGS {
-            // the full 0..99 clashes + panic for the short names and three long ones
-            let k = if nm.len() < 20 || (8..=10).contains(&i) { 100 } else { 12 };
+        for (ci, (p, s)) in CONFIGS.iter().enumerate() {
+            // the full 0..99 clashes + panic for the short names and four long combinations
+            let long_full = matches!((i, ci), (8, 0) | (8, 2) | (9, 1) | (10, 0));
+            let k = if nm.len() < 20 || long_full || a.thorough() { 100 } else { 12 };
             cs.push(mk(nm.clone(), p, s, k, "chain"));
         }
     }
@@ -330,7 +331,7 @@ fn gen_listed(a: &Args, rng: &mut Rng) -> Vec<Case> {
         }
     }
     // random names over the pool, random affixes, short chains
-    let nrand = if a.thorough() { 30_000 } else { 1_500 };
+    let nrand = if a.thorough() { 30_000 } else { 1_000 };
     for i in 0..nrand {
         let len = if i % 8 == 0 { rng.range(100, 300) } else { rng.range(1, 24) } as usize;
         let mut name = String::new();
